@@ -141,6 +141,14 @@ class Engine:
         self._declare(name, c, cons)
         return SymFloat(c)
 
+    def string(self, name):
+        """A z3 String input (unbounded length; used for regular-language queries)."""
+        if self.concrete is not None:
+            return str(self.concrete[name])
+        c = z3.String(name)
+        self._declare(name, c, [])
+        return c
+
     def choice(self, name, n):
         """A finite selector in range(n): a solver variable the engine forks over."""
         if self.concrete is not None:
@@ -389,6 +397,8 @@ class Engine:
                 out[name] = z3.is_true(v)
             elif z3.is_rational_value(v):
                 out[name] = f"{v.numerator_as_long()}/{v.denominator_as_long()}"
+            elif z3.is_string_value(v):
+                out[name] = _z3_string(v)
             elif z3.is_algebraic_value(v):
                 a = v.approx(20)
                 out[name] = f"{a.numerator_as_long()}/{a.denominator_as_long()}"
@@ -470,6 +480,13 @@ class Engine:
             stack.extend(self.pending)
             self.paths += 1
         return outcomes
+
+
+def _z3_string(v):
+    import re as _re
+
+    s = v.as_string()
+    return _re.sub(r"\\u\{([0-9a-fA-F]+)\}", lambda m: chr(int(m.group(1), 16)), s)
 
 
 def _dec_repr(decs):
